@@ -58,6 +58,11 @@ func genC16(rt *rapid.T, st *Stats) *Case {
 	genOptions(rt, c, NodeIDs(c.Edges), OptSpec{CBs: allCB, Lays: allLay, Poss: []int{PosVAlign, PosPackRight}, Rts: []int{RtNoop, RtPolyline},
 		Thorough: false, Virt: false, Sizes: 1, NSZero: true, LSZero: false, DefaultsOK: true})
 	c.Virt = true
+	// the property does not mention the ordering phase: OrderingNoop is a public option too (no helper nodes then, layers in
+	// insertion order, and the positions WMedian would have recorded stay unset - seeded/r5-m16 relied on them)
+	if chance(rt, "ordering_noop", 1, 6) {
+		c.Ord = 1
+	}
 	return c
 }
 
@@ -74,6 +79,7 @@ func checkC16(c *Case) *Outcome {
 	if !c.Virt || c.LayerSpacing() <= 0 {
 		return o.failf("bad case: C16 is observed with virtual-node output and LayerSpacing > 0")
 	}
+	o.classIf(c.Ord == 1, "ordering=noop")
 	l, perr := c.Run()
 	if perr != nil {
 		return o.failf("Layout panicked: %v", perr)
